@@ -810,6 +810,14 @@ pixman_image_set_alpha_map (pixman_image_t *image,
 
     return_if_fail (!alpha_map || alpha_map->type == BITS);
 
+    if (alpha_map == image)
+    {
+	/* An image can't be its own alpha map: it would hold a
+	 * reference to itself and never be freed
+	 */
+	return;
+    }
+
     if (alpha_map && common->alpha_count > 0)
     {
 	/* If this image is being used as an alpha map itself,
